@@ -340,7 +340,7 @@
                    (quoted-printable-decode-bytevector
                     (if (string? part) (string->utf8 part) part))))
               ((and (string? cte) (string-ci=? cte "base64"))
-               (if text?
+               (if (and text? (string? part))
                    (base64-decode-string part)
                    (base64-decode-bytevector
                     (if (string? part) (string->utf8 part) part))))
